@@ -233,6 +233,8 @@ impl Property for C16S {
                     }
                 }
                 8 => Block::SetCcr(rng.u8() & 0x7f), // C (and the other flags) varies for the bit stores
+                // instructions that only READ a data register (BTST, BLD, BAND, BOR, BXOR, MOV.B @aa:8,Rd): no latch moves
+                7 => Block::BitOp { aa: (0xd0 + port - 1) as u8, bit: rng.below(8) as u8, op: rng.range(3, 8) as u8 },
                 6 => if rng.chance(1, 2) { Block::Arith(rng.u8()) } else { Block::Filler(rng.u32()) },
                 _ => Block::Delay(rng.range(1, 6) as u16),
             });
